@@ -7,7 +7,9 @@ Local Open Scope Z_scope.
 Inductive vq :=
 | QRaw (w : N) | QInt (n : Z) | QIntChecked (n : Z) | QFloat (bits : N) | QBool (b : bool)
 | QNull | QPtr (p : N) | QNested (i : N) | QEq (a b : N)
-| QPool (ws : list N).
+| QPool (ws : list N)
+| QNat (w : N) | QNatInt (n : Z) | QNatFloat (bits : N) | QNatBool (b : bool) | QNatNull
+| QMkInt (n : Z).
 
 Definition zb (b : bool) : Z := if b then 1 else 0.
 Definition oz (o : option Z) : list Z := match o with Some z => [1; z] | None => [0; 0] end.
@@ -23,6 +25,16 @@ Definition raw_obs (w : N) : list Z :=
 (* constructor queries report the constructed word followed by everything observable about it *)
 Definition ctor_obs (w : N) : list Z := Z.of_N w :: raw_obs w.
 
+(* the host-side copy of the scheme that native modules use (native/src/value.rs): what its
+   predicates and accessors answer for a word (its accessors return 0 / 0.0 / false for a word of
+   another kind; a NaN is reported as -1) *)
+Definition nat_obs (w : N) : list Z :=
+  [zb (is_null w); zb (is_int w); zb (is_float w); zb (is_bool w); zb (is_ptr w);
+   match as_int w with Some z => z | None => 0 end;
+   match as_float w with Some b => if is_nan_bits b then (-1) else Z.of_N b | None => 0 end;
+   match as_bool w with Some b => zb b | None => 0 end;
+   match as_ptr w with Some p => Z.of_N p | None => 0 end].
+
 Definition vobs (q : vq) : list Z :=
   match q with
   | QRaw w => raw_obs w
@@ -34,5 +46,11 @@ Definition vobs (q : vq) : list Z :=
   | QPtr p => ctor_obs (v_ptr p)
   | QNested i => ctor_obs (v_nested i)
   | QEq a b => [zb (value_eq a b)]
+  | QNat w => nat_obs w
+  | QNatInt n => Z.of_N (v_int n) :: nat_obs (v_int n)
+  | QNatFloat b => Z.of_N (v_float b) :: nat_obs (v_float b)
+  | QNatBool b => Z.of_N (v_bool b) :: nat_obs (v_bool b)
+  | QNatNull => Z.of_N v_null :: nat_obs v_null
+  | QMkInt n => match v_int_checked n with Some w => 1 :: ctor_obs w | None => [0] end
   | QPool ws => let '(is, p) := pool_adds [] ws in map Z.of_nat is ++ [Z.of_nat (length p)] ++ map Z.of_N p
   end.
